@@ -79,6 +79,8 @@ pub enum Rec {
     BoolErr { r: u16, c: u16, xf: u16, v: u8, is_err: bool },
     /// `shared`: fShrFmla set and rgce = PtgExp (a SHRFMLA record should follow the first one)
     Formula { r: u16, c: u16, xf: u16, res: FRes, shared: bool },
+    /// FORMULA with an explicit rgce (parsed expression bytes, without the cce prefix)
+    FormulaRgce { r: u16, c: u16, xf: u16, res: FRes, rgce: Vec<u8> },
     ShrFmla { r0: u16, r1: u16, c0: u8, c1: u8 },
     StringRec { s: XlStr },
     Blank { r: u16, c: u16, xf: u16 },
@@ -120,13 +122,15 @@ pub struct Workbook {
     pub sheets: Vec<Sheet>,
     /// extra ignorable records in the globals substream (before BoundSheet8)
     pub globals_extra: Vec<Rec>,
+    /// records of the globals substream after the BoundSheet8 records (SupBook, ExternSheet, Lbl ...)
+    pub after_sheets: Vec<Rec>,
     /// pad the stream to exactly this many bytes with ignorable records before the last EOF
     pub pad_to: Option<usize>,
 }
 
 impl Default for Workbook {
     fn default() -> Self {
-        Workbook { date1904: None, formats: vec![], xfs: vec![0], sst: Sst::None, sheets: vec![], globals_extra: vec![], pad_to: None }
+        Workbook { date1904: None, formats: vec![], xfs: vec![0], sst: Sst::None, sheets: vec![], globals_extra: vec![], after_sheets: vec![], pad_to: None }
     }
 }
 
@@ -238,6 +242,23 @@ impl W {
                 }
                 self.rec(0x0006, &d)
             }
+            Rec::FormulaRgce { r, c, xf, res, rgce } => {
+                p16(&mut d, *r);
+                p16(&mut d, *c);
+                p16(&mut d, *xf);
+                match res {
+                    FRes::Num(v) => d.extend_from_slice(&v.to_le_bytes()),
+                    FRes::Str => d.extend_from_slice(&[0, 0, 0, 0, 0, 0, 0xFF, 0xFF]),
+                    FRes::Bool(b) => d.extend_from_slice(&[1, 0, *b as u8, 0, 0, 0, 0xFF, 0xFF]),
+                    FRes::Err(e) => d.extend_from_slice(&[2, 0, *e, 0, 0, 0, 0xFF, 0xFF]),
+                    FRes::Blank => d.extend_from_slice(&[3, 0, 0, 0, 0, 0, 0xFF, 0xFF]),
+                }
+                p16(&mut d, 0);
+                d.extend_from_slice(&0u32.to_le_bytes());
+                p16(&mut d, rgce.len() as u16);
+                d.extend_from_slice(rgce);
+                self.rec(0x0006, &d)
+            }
             Rec::ShrFmla { r0, r1, c0, c1 } => {
                 p16(&mut d, *r0);
                 p16(&mut d, *r1);
@@ -337,6 +358,9 @@ pub fn workbook_stream(wb: &Workbook) -> Vec<u8> {
         d.extend_from_slice(&sh.name.short());
         patch.push(g.buf.len() + 4);
         g.rec(0x0085, &d);
+    }
+    for r in &wb.after_sheets {
+        g.write(r);
     }
     match &wb.sst {
         Sst::None => {}
@@ -517,4 +541,29 @@ pub fn sst_frags(strings: &[RichStr], cuts: &[Cut], max: usize) -> Vec<Vec<u8>> 
     }
     frags.push(cur);
     frags
+}
+
+// ---------------------------------------------------------------- 3-D references and defined names
+/// SupBook (internal references) + ExternSheet with the given XTI entries (itabFirst = itabLast)
+pub fn extern_sheet_recs(nsheets: u16, xti_sheets: &[i16]) -> Vec<Rec> {
+    let mut sup = nsheets.to_le_bytes().to_vec();
+    sup.extend_from_slice(&[0x01, 0x04]);
+    let mut ext = (xti_sheets.len() as u16).to_le_bytes().to_vec();
+    for s in xti_sheets {
+        ext.extend_from_slice(&0u16.to_le_bytes());
+        ext.extend_from_slice(&s.to_le_bytes());
+        ext.extend_from_slice(&s.to_le_bytes());
+    }
+    vec![Rec::Raw { typ: 0x01AE, data: sup }, Rec::Raw { typ: 0x0017, data: ext }]
+}
+
+/// Lbl (defined name, workbook scope) with the given name and rgce
+pub fn lbl_rec(name: &XlStr, rgce: &[u8]) -> Rec {
+    let mut d = vec![0u8, 0, 0, name.units.len() as u8];
+    d.extend_from_slice(&(rgce.len() as u16).to_le_bytes());
+    d.extend_from_slice(&[0u8; 8]);
+    d.push(name.high as u8);
+    name.chars(&mut d);
+    d.extend_from_slice(rgce);
+    Rec::Raw { typ: 0x0018, data: d }
 }
